@@ -1,0 +1,19 @@
+package slog
+
+import (
+	"encoding/json"
+	"unicode/utf8"
+)
+
+// jsonFormOfName returns the JSON string for a level name that is valid
+// UTF-8. (%q writes Go escapes such as \a, \v, \x07 or \U000e0001 for
+// control and non-printing characters, and those are not JSON; a name
+// that is not valid UTF-8 has no JSON form and keeps the %q one, which
+// UnmarshalJSON reads back.)
+func jsonFormOfName(b []byte) ([]byte, bool) {
+	if !utf8.Valid(b) {
+		return nil, false
+	}
+	jb, err := json.Marshal(string(b))
+	return jb, err == nil
+}
